@@ -190,6 +190,14 @@ def call(ex, p, f, args, kwargs, node=None):
     if isinstance(f, VFunc):
         k = f.kind
         if k == 'builtin':
+            # arguments a model does not look at must not be dropped silently (enumerate(x, 1), sum(x, start), max(..., key=...))
+            lim = BUILTIN_ARITY.get(f.name)
+            if lim is not None:
+                if len(args) > lim[0] or any(kw not in lim[1] for kw in kwargs):
+                    raise EngineError(f'builtin {f.name} called with arguments its model does not cover '
+                                      f'({len(args)} positional, keywords {sorted(kwargs)})')
+            elif kwargs:
+                raise EngineError(f'builtin {f.name} called with keyword arguments {sorted(kwargs)}')
             yield from BUILTINS[f.name](ex, p, args, kwargs, node)
             return
         if k == 'repo':
@@ -646,6 +654,14 @@ def m_fabs(ex, p, args, kwargs, node):
     v = arith._float_of(ex, p, args[0])
     yield p, arith.num_abs(ex, p, v)
 
+
+# name -> (maximum number of positional arguments the model reads, keyword arguments it reads)
+BUILTIN_ARITY = {
+    'len': (1, ()), 'int': (2, ('base',)), 'float': (1, ()), 'str': (1, ()), 'bool': (1, ()), 'abs': (1, ()), 'round': (2, ('ndigits',)),
+    'range': (3, ()), 'list': (1, ()), 'tuple': (1, ()), 'set': (1, ()), 'enumerate': (1, ()), 'reversed': (1, ()), 'divmod': (2, ()),
+    'sum': (1, ()), 'isinstance': (2, ()), 'min': (64, ()), 'max': (64, ()), 'zip': (64, ()), 'map': (64, ()),
+    'print': (64, ('sep', 'end', 'file', 'flush')), 'math.floor': (1, ()), 'math.ceil': (1, ()), 'math.sqrt': (1, ()), 'math.fabs': (1, ()),
+}
 
 BUILTINS = {
     'math.fabs': m_fabs,
